@@ -1118,3 +1118,21 @@ def _m_norm_cached(mod):
 
     from ._mut import replace_in_func as _r
     return mod if _r(mod, "parse", edit) else None
+
+
+@SPEC.mutant("layout compared column by column over zip()", PARSER, "R01.14", "only where the layouts are equal")
+def _m_zip_layout(mod):
+    def edit(fn):
+        for b in ast.walk(fn):
+            for f_ in ("body", "orelse"):
+                lst = getattr(b, f_, None)
+                if not isinstance(lst, list):
+                    continue
+                for i, st in enumerate(lst):
+                    if isinstance(st, ast.If) and norm(st.test) in ("columns != expected_columns", "columns == expected_columns") and "table_correct" in norm(st) \
+                            and "metadata" not in norm(st):
+                        lst[i:i + 1] = ast.parse("table_correct = True\nfor _c, _e in zip(columns, expected_columns):\n    if _c != _e:\n        table_correct = False\n        break").body
+                        return True
+        return False
+
+    return mod if replace_in_func(mod, "_check_database_structure", edit) else None
